@@ -4,6 +4,7 @@ import (
 	"bytes"
 	"context"
 	"encoding/base64"
+	"fmt"
 	"io"
 	"net/http"
 	"strings"
@@ -186,6 +187,34 @@ func finalClientAudit(w *World, final *servedSTH) {
 				return
 			}
 			s.Probe("clientaudit.sct")
+		}
+		// the whole log in one call: whatever the library client hands back (the log may answer with fewer entries than
+		// asked for, and the client may or may not ask again), entry k of its answer is the entry the log holds at index
+		// first + k, and says so itself
+		if n := w.treeSize(); n > 1 {
+			first := int64(0)
+			if n > 3 {
+				first = 1
+			}
+			entries, err := lc.GetEntries(ctx, first, n-1)
+			if err != nil || len(entries) == 0 || int64(len(entries)) > n-first {
+				s.Violate("client-rejects", "GetEntries/range", "client.LogClient.GetEntries(%d,%d) on a log of %d entries: %v (%d entries)", first, n-1, n, err, len(entries))
+				return
+			}
+			for k := range entries {
+				idx := first + int64(k)
+				if entries[k].Index != idx {
+					s.Violate("client-disagrees", "GetEntries/index", "client.LogClient.GetEntries(%d,%d): entry %d of the answer calls itself index %d, it is the entry of index %d (%d entries returned, the front end serves at most %d per request)", first, n-1, k, entries[k].Index, idx, len(entries), w.prof.MaxGet)
+					return
+				}
+				if sub := w.subForIndex(idx); sub != nil {
+					if msg := w.decodedMatches(&entries[k], sub, idx); msg != "" {
+						s.Violate("client-disagrees", "GetEntries/range", "entry %d of client.LogClient.GetEntries(%d,%d) is not the entry the log holds at index %d: %s", k, first, n-1, idx, msg)
+						return
+					}
+				}
+			}
+			s.Probe(fmt.Sprintf("clientaudit.range.pages>1=%v", int64(len(entries)) > w.prof.MaxGet))
 		}
 	})
 	if !ok {
